@@ -314,6 +314,33 @@ class ModuleFrames(object):
                     self.add(c.name, v.lineno, 'class-default', name, 'shared',
                              'class-level mutable default %s.%s is mutated through self (line %d) and instances of %s do not rebind it in a constructor that runs' % (
                                  cname, name, mutated, c.name))
+        # a module-level mutable object stored uncopied in an instance attribute and mutated through it: every instance (and every
+        # later call) shares -- and grows -- the one module object
+        def is_mutable_value(v):
+            return isinstance(v, (ast.List, ast.Dict, ast.Set)) or (
+                isinstance(v, ast.Call) and isinstance(v.func, ast.Name) and v.func.id in ('dict', 'list', 'set', 'defaultdict', 'OrderedDict'))
+        module_mutables = dict((name, v) for name, v in self.module_names.items() if isinstance(v, ast.AST) and is_mutable_value(v))
+        for cname, cnode in self.classes.items():
+            for n in ast.walk(cnode):
+                if not (isinstance(n, ast.Assign) and isinstance(n.value, ast.Name) and n.value.id in module_mutables):
+                    continue
+                for t in n.targets:
+                    if isinstance(t, ast.Attribute) and isinstance(t.value, ast.Name) and t.value.id == 'self':
+                        attr = t.attr
+                        for m in ast.walk(cnode):
+                            tgt = None
+                            if isinstance(m, ast.Subscript) and isinstance(m.ctx, (ast.Store, ast.Del)):
+                                tgt = m.value
+                            elif isinstance(m, ast.Call) and isinstance(m.func, ast.Attribute) and m.func.attr in MUT:
+                                tgt = m.func.value
+                            elif isinstance(m, ast.AugAssign):
+                                tgt = m.target
+                            if isinstance(tgt, ast.Attribute) and tgt.attr == attr and isinstance(tgt.value, ast.Name) and tgt.value.id == 'self':
+                                self.add(cname, n.lineno, 'module-alias', attr, 'shared',
+                                         'the module-level mutable object %s is stored uncopied in self.%s (line %d) and mutated through it (line %d): '
+                                         'one object for all instances and calls' % (n.value.id, attr, n.lineno, m.lineno))
+                                break
+
     # ---- other obligations ----------------------------------------------
     def instantiations(self, classnames):
         """[(class, enclosing function path tuple, lineno)] for every call ClassName(...)"""
